@@ -150,6 +150,8 @@ def main() -> None:
             {"name": "x01-pagination", "path": "harness/x01.py", "serves_properties": [], "kind_free_text": "Pagination.tla: paginate_by_next, safety + liveness, every bounded server replayed on the real helper"},
             {"name": "x02-writers", "path": "harness/x02.py", "serves_properties": ["C15"], "kind_free_text": "Writer.tla / RenderAst.tla: CodeWriter / LineWriter as a state machine (18 actions, every edge replayed), PythonConstructRenderer output read back with ast"},
             {"name": "x03-imports", "path": "harness/x03.py", "serves_properties": ["C01", "C12"], "kind_free_text": "Imports.tla: ImportCollector / RenderContext import arithmetic judged against Python's own name resolution (TLA+ Resolve cross-checked with the real importer)"},
+            {"name": "x05-operation-loader", "path": "harness/x05.py", "serves_properties": ["C04", "C05", "C06", "C07"], "kind_free_text": "OpLoad.tla: document -> IR of operations; Meaning(doc) (override rule, transitive $ref, response table) vs the real load_ir_from_spec; NoCrossTalk, RefTransparent"},
+            {"name": "x06-enum-pipeline", "path": "harness/x06.py", "serves_properties": ["C02", "C03", "C20"], "kind_free_text": "EnumPipe.tla: enum keywords and discriminator mappings -> emitted Enum classes; Values, Members, RightEnum, Shared, Named, RoundTrip, Stable"},
             {"name": "x04-type-resolution", "path": "harness/x04.py", "serves_properties": ["C02", "C03"], "kind_free_text": "TypeResolve.tla: schema -> annotation; Admits(shape) vs Denotes(annotation), imports closed, stable, total"},
         ],
         "checks": checks,
